@@ -406,7 +406,11 @@ int fn_exec(const char* arg) {
         kerl_free_argcv(argc, argv);
         return 0;
     }
-    instance.eval(argc, argv);
+    try {
+        instance.eval(argc, argv);
+    } catch (std::exception const& ex) {
+        fprintf(stderr, "exception: %s\n", ex.what());
+    }
     print_dualstack();
     kerl_free_argcv(argc, argv);
     return 0;
